@@ -16,23 +16,6 @@ set_option linter.unusedSimpArgs false
 namespace TypifyModel.Dispatch
 open TypifyModel TypifyModel.Excl
 
-/-- which keyword groups a schema object has (what `step` looks at) -/
-structure Groups where
-  fmt : Bool
-  en : Bool
-  cn : Bool
-  sub : Bool
-  num : Bool
-  str : Bool
-  arr : Bool
-  obj : Bool
-  rf : Bool
-deriving Repr, DecidableEq
-
-def groupsOf (kvs : Kvs) : Groups :=
-  { fmt := has kvs "format", en := has kvs "enum", cn := has kvs "const", sub := subP kvs, num := numP kvs, str := strP kvs,
-    arr := arrP kvs, obj := objP kvs, rf := has kvs "$ref" }
-
 /-- the keyword combinations of the supported fragment, one level deep -/
 def Fragment (kvs : Kvs) : Prop :=
   let g := groupsOf kvs
@@ -71,30 +54,30 @@ theorem fragment_never_todo (kvs : Kvs) (h : Fragment kvs) :
   obtain ⟨hcn, h⟩ := h
   rcases h with h | h | h | h | h | h | h | h | h
   · obtain ⟨hty, hf, he, _, hs, hn, hst, ha, ho, hr⟩ := h
-    simp +decide [step, armsTyped, typedArms, isSingle_single, isSingle_none, isUntyped, isOne, List.find?, hty, hf, he, hcn, hs, hn, hst, ha, ho, hr]
+    simp +decide [step, armsTyped, typedArms, typedArmsG, groupsOf, isSingle_single, isSingle_none, isUntyped, isOne, List.find?, hty, hf, he, hcn, hs, hn, hst, ha, ho, hr]
   · obtain ⟨hty, hf, he, _, hs, hn, hst, ha, ho, hr⟩ := h
     have := soleArm_ok kvs
-    simp +decide [step, armsTyped, typedArms, isSingle_single, isSingle_none, isUntyped, isOne, List.find?, hty, hf, he, hcn, hs, hn, hst, ha, ho, hr, this.1, this.2]
+    simp +decide [step, armsTyped, typedArms, typedArmsG, groupsOf, isSingle_single, isSingle_none, isUntyped, isOne, List.find?, hty, hf, he, hcn, hs, hn, hst, ha, ho, hr, this.1, this.2]
   · obtain ⟨hty, hs, hr, hn, ha, ho⟩ := h
     cases he : has kvs "enum" <;>
-      simp +decide [step, armsTyped, typedArms, isSingle_single, isSingle_none, isUntyped, isOne, List.find?, hty, he, hcn, hs, hr]
+      simp +decide [step, armsTyped, typedArms, typedArmsG, groupsOf, isSingle_single, isSingle_none, isUntyped, isOne, List.find?, hty, he, hcn, hs, hr]
   · obtain ⟨hty, he, hs, hr, hst, ha, ho⟩ := h
     rcases hty with hty | hty <;>
-      simp +decide [step, armsTyped, typedArms, isSingle_single, isSingle_none, isUntyped, isOne, List.find?, hty, he, hcn, hs, hr]
+      simp +decide [step, armsTyped, typedArms, typedArmsG, groupsOf, isSingle_single, isSingle_none, isUntyped, isOne, List.find?, hty, he, hcn, hs, hr]
   · obtain ⟨hty, hf, he, _, hs, hn, hst, ha, ho, hr⟩ := h
     rcases hty with hty | hty <;>
-      simp +decide [step, armsTyped, typedArms, isSingle_single, isSingle_none, isUntyped, isOne, List.find?, hty, hf, he, hcn, hs, hr]
+      simp +decide [step, armsTyped, typedArms, typedArmsG, groupsOf, isSingle_single, isSingle_none, isUntyped, isOne, List.find?, hty, hf, he, hcn, hs, hr]
   · obtain ⟨hty, hf, he, hs, hr, hn, hst, ho⟩ := h
     cases ha : arrP kvs <;>
-      simp +decide [step, armsTyped, typedArms, isSingle_single, isSingle_none, isUntyped, isOne, List.find?, hty, hf, he, hcn, hs, hr, ha]
+      simp +decide [step, armsTyped, typedArms, typedArmsG, groupsOf, isSingle_single, isSingle_none, isUntyped, isOne, List.find?, hty, hf, he, hcn, hs, hr, ha]
   · obtain ⟨hty, hf, he, hs, hr, hn, hst, ha⟩ := h
-    simp +decide [step, armsTyped, typedArms, isSingle_single, isSingle_none, isUntyped, isOne, List.find?, hty, hf, he, hcn, hs, hr]
+    simp +decide [step, armsTyped, typedArms, typedArmsG, groupsOf, isSingle_single, isSingle_none, isUntyped, isOne, List.find?, hty, hf, he, hcn, hs, hr]
   · obtain ⟨t, hne, hty⟩ := h
     have hb : (t != JT.null) = true := by simpa using hne
     rcases hty with hty | hty <;> simp only [step, hty, armNullable] <;> cases onlyNullEnum kvs <;> simp [List.find?, hb]
   · obtain ⟨hty, hf, hs, hn, hst, ha, ho, hr⟩ := h
     cases he : has kvs "enum" <;>
-      simp +decide [step, armsTyped, typedArms, isSingle_single, isSingle_none, isUntyped, isOne, List.find?, hty, hf, he, hcn, hs, hn, hst, ha, ho, hr]
+      simp +decide [step, armsTyped, typedArms, typedArmsG, groupsOf, isSingle_single, isSingle_none, isUntyped, isOne, List.find?, hty, hf, he, hcn, hs, hn, hst, ha, ho, hr]
 
 /-- the fragment is inhabited: a string with a format and a length bound, a nullable integer, a lone `oneOf` -/
 example : Fragment [("format", .str "uuid"), ("maxLength", .int 40), ("type", .str "string")] :=
